@@ -105,6 +105,10 @@ struct SeqRun {
         long max_size_seen = 0;
         for (auto &o : p.ops) {
             if (o.code == 2) { if (!frames.empty()) complete(*frames[o.a % frames.size()]); continue; }
+            if constexpr (std::is_move_constructible_v<A> && std::is_move_assignable_v<A>) {
+                // moving the storage object (documented movable) while no frame lives in it keeps its block: no new allocation later
+                if (o.code == 3 && (o.a & 4) && live() == 0) { A tmp(std::move(alloc)); alloc = std::move(tmp); continue; }
+            }
             int sc = o.a % 3;
             if (single_use && live() > 0) { complete(*frames.back()); }      // documented single use: one live frame at a time
             bool block_busy = mtsafe && block_owner != nullptr;
